@@ -9,6 +9,7 @@ each buffer, are judged end to end by the explorer (buffers are observed through
 import S3V.Props.C10
 import S3V.Props.C12
 import S3V.Lemmas.Download
+import S3V.Props.C01
 
 namespace S3V.C11
 open S3V.Exec
@@ -81,5 +82,19 @@ theorem io_pending_le (ioq : Nat) (ls : List Label) (e : Exec) (hr : run (Exec.i
 theorem io_chunks_le (io len : Nat) (a : S3V.Download.Attempt) (hio : 0 < io) :
     ∀ c ∈ S3V.Download.attemptChunks io len a, c ≤ io :=
   fun c hc => ((S3V.Download.attemptChunks_spec io len a hio).2.2 c hc).2
+
+/-- **Size of a stream-upload buffer sent as one PutObject** (after the D16 repair): whatever the
+stream's short-read pattern, the single-request path is taken only when the whole stream is
+shorter than `multipart_threshold`, so that buffer is smaller than the threshold; the buffers of a
+multipart stream upload have exactly the (adjusted) part size except the last (D14 is about that
+adjusted size being at least 5 MiB). -/
+theorem stream_single_put_buffer_lt_threshold {α : Type} (s : S3V.Upload.Src α) (threshold : Nat)
+    (h : (S3V.Upload.NS.choose s threshold).1 = false) :
+    (S3V.Upload.NS.choose s threshold).2.putBody.length < threshold :=
+  (S3V.C01.single_put_below_threshold s threshold h).2
+
+theorem stream_part_buffer_le_chunk {α : Type} (m : S3V.Upload.NS α) (chunk : Nat) (hc : 0 < chunk)
+    (hrest : chunk ≤ m.initial.length + m.src.data.length) : (m.readChunk chunk).1.length = chunk :=
+  S3V.C01.nonseekable_part_full m chunk hc hrest
 
 end S3V.C11
